@@ -6,6 +6,7 @@ CONSTANTS
   NT = 2
   Observe = TRUE
   ObserveFrom = 1
+  TrackDist = TRUE
   CacheChecksCount = FALSE
 INVARIANT CacheFresh
 INVARIANT GraphAgrees
